@@ -410,11 +410,14 @@ package tds
 //@   modifies
 //@   ensures [fresh] q != nil && fresh(q) && len(q.queue) == 0 && q.indexPacket == 0 && q.indexData == 0 && !q.recvEOM
 //@   ensures [ghost-defaults] q.$r == 0 && q.$end == 0 && q.$w == 0 && !q.$readable && !q.$writable && !q.$dry
+//@   ensures [base-default] q.$base == 0
 //@ func (*PacketQueue).Reset
-//@   modifies queue.queue, queue.indexPacket, queue.indexData, queue.recvEOM, queue.$r
+//@   modifies queue.queue, queue.indexPacket, queue.indexData, queue.recvEOM, queue.$r, queue.$base
 //@   ghost-update at exit: queue.$r := queue.$end
+//@   ghost-update at exit: queue.$base := queue.$w
 //@   ensures [empty] len(queue.queue) == 0 && queue.indexPacket == 0 && queue.indexData == 0 && !queue.recvEOM
 //@   ensures [skipped] queue.$r == queue.$end
+//@   ensures [base] queue.$base == queue.$w
 //@ func (*PacketQueue).AllPacketsConsumed returns (r) inline
 //@   modifies
 //@   ensures [exact] queue.$readable ==> r == (queue.indexPacket >= len(queue.queue) || (queue.indexPacket == len(queue.queue) - 1 && queue.indexData == len(queue.queue[queue.indexPacket].Data)))
@@ -434,8 +437,11 @@ package tds
 //@   cut typeinv PacketQueue/tcontent by this.$writable ==> old(pqtc(this, j + pqdropped(this), i)) && old(pqt1at(this, j + pqdropped(this)))
 //@   cut typeinv PacketQueue/tbelow by this.$writable ==> old(pqtbelow(this, j + pqdropped(this), this.$w))
 //@   cut typeinv PacketQueue/content by this.$readable ==> old(pqc(this, j + pqdropped(this), i))
-//@   modifies queue.queue, queue.indexPacket, queue.indexData
+//@   modifies queue.queue, queue.indexPacket, queue.indexData, queue.$base
+//@   ghost-update at exit: queue.$base := queue.$writable ? (len(queue.queue) > 0 ? queue.queue[0].$pos : queue.$w) : queue.$base
 //@   ensures [position-kept] queue.$readable ==> queue.$r == old(queue.$r)
+//@   ensures [tx-shift] queue.$writable ==> (forall j int :: 0 <= j && j < len(queue.queue) ==> queue.queue[j] == old(queue.queue[j + pqdropped(queue)]))
+//@   ensures [tx-dropped] queue.$writable ==> pqdropped(queue) == old(queue.indexPacket) + (old(queue.indexPacket < len(queue.queue) && queue.indexData >= len(queue.queue[queue.indexPacket].Data)) ? 1 : 0)
 //@ func (*PacketQueue).Bytes returns (bs, err)
 //@   modifies queue.indexPacket, queue.indexData, queue.$r, queue.$dry
 //@   ghost-update at exit: queue.$r := pqpos(queue)
@@ -483,6 +489,10 @@ package tds
 //@ typeinv PacketQueue { [tcontent] forall j int, i int :: this.$writable ==> pqtc(this, j, i) }
 //@ typeinv PacketQueue { [tw] this.$writable ==> pqtw(this) }
 //@ typeinv PacketQueue { [tbelow] forall j int :: this.$writable ==> pqtbelow(this, j, this.$w) }
+//@ # $base: stream position of the first byte still held by the transmit queue
+//@ ghost field BytesChannel.$base int
+//@ pred pqtbase(q *PacketQueue) { len(q.queue) > 0 ? q.queue[0].$pos == q.$base : q.$base == q.$w }
+//@ typeinv PacketQueue { [tbase] this.$writable ==> pqtbase(this) }
 //@ typeinv PacketQueue { [psfn] this.$writable ==> this.packetSize != nil }
 //@ typeinv PacketQueue { [one-discipline] !(this.$writable && this.$readable) }
 
@@ -522,6 +532,7 @@ package tds
 //@     invariant [cursor] queue.$writable ==> pqtcursor(queue)
 //@     invariant [chain] forall j int :: queue.$writable ==> pqtchain(queue, j) by@keep queue.$writable ==> head(pqtchain(queue, j)) && head(pqt1at(queue, j)) && head(pqt1at(queue, j + 1))
 //@     invariant [pos] queue.$writable ==> (len(queue.queue) == 0 ==> bsOffset == 0) && (len(queue.queue) > 0 ==> queue.queue[queue.indexPacket].$pos + queue.indexData == old(queue.$w) + bsOffset)
+//@     invariant [base] queue.$writable ==> (len(queue.queue) > 0 ? queue.queue[0].$pos == queue.$base : queue.$base == old(queue.$w))
 //@     invariant [noalias] forall j int :: pqnoalias(queue, j, bs) by@keep head(pqnoalias(queue, j, bs))
 //@     invariant [noalias-cur] pqnoalias(queue, queue.indexPacket, bs)
 //@     invariant [dcur] forall j int :: queue.$writable ==> pqtdcur(queue, j) by@entry queue.$writable ==> old(pqtdist(queue, j, queue.indexPacket)) && old(pqtdist(queue, queue.indexPacket, j)) by@keep queue.$writable ==> head(pqtdcur(queue, j)) && head(pqt1at(queue, j))
@@ -678,14 +689,23 @@ package tds
 //@ typeinv Conn { [packet-size] 8 < this.packetSize && this.packetSize <= 65535 }
 //@ typeinv Channel { [wired] this.tdsConn != nil && this.queueTx != nil && this.queueRx != nil && this.queueTx != this.queueRx }
 //@ typeinv Channel { [tx-queue] this.queueTx.$writable && chwf(this.queueTx) }
+//@ typeinv Channel { [conn-packet-size] 8 < this.tdsConn.packetSize && this.tdsConn.packetSize <= 65535 }
 //@ typeinv Channel { [eom-ghost] this.eomPending == this.$open }
 //@ typeinv Channel { [channel-id] 0 <= this.channelId && this.channelId <= 65535 }
 //@ func (*Conn).PacketSize returns (r) inline
 //@ func (*Conn).PacketBodySize returns (r) inline
+//@ # $sent: number of bytes of the transmit queue's output stream handed to the transport
+//@ ghost field Channel.$sent int
 //@ func (*Channel).sendPacket returns (err)
 //@   requires [packet] packet != nil
 //@   requires [wire-length] packet.Header.Length == 8 + len(packet.Data)
-//@   modifies packet.Header, tdsChan.curPacketNr, tdsChan.eomPending, tdsChan.$open, tdsChan.tdsConn.conn.$wire, tdsChan.tdsConn.conn.$wlen
+//@   requires [in-order] len(packet.Data) == 0 || packet.$pos == tdsChan.$sent
+//@   requires [queued-content] forall j int :: 8 <= j && j < 8 + len(packet.Data) ==> packet.Data[j - 8] == tdsChan.queueTx.$out[packet.$pos + j - 8]
+//@   modifies packet.Header, tdsChan.curPacketNr, tdsChan.eomPending, tdsChan.$open, tdsChan.$sent, tdsChan.tdsConn.conn.$wire, tdsChan.tdsConn.conn.$wlen
+//@   ghost-update at after (tds.Packet).WriteTo#1: tdsChan.$sent := ($res1 == nil && $res0 == packet.Header.Length) ? tdsChan.$sent + len(packet.Data) : tdsChan.$sent
+//@   ensures [sent] tdsChan.$sent == old(tdsChan.$sent) + (err == nil ? len(packet.Data) : 0)
+//@   ensures [data-kept] len(packet.Data) == old(len(packet.Data)) && arr(packet.Data) == old(arr(packet.Data)) && off(packet.Data) == old(off(packet.Data))
+//@   ensures [wire-is-queued-stream] err == nil ==> (forall j int :: 8 <= j && j < packet.Header.Length ==> tdsChan.tdsConn.conn.$wire[old(tdsChan.tdsConn.conn.$wlen) + j] == tdsChan.queueTx.$out[old(tdsChan.$sent) + j - 8])
 //@   ghost-update at after (tds.Packet).WriteTo#1: tdsChan.$open := ($res1 == nil && $res0 == packet.Header.Length) ? (packet.Header.Status % 2 == 0) : tdsChan.$open
 //@   ensures [type] packet.Header.MsgType == tdsChan.CurrentHeaderType
 //@   ensures [channel] tdsChan.channelId > 0 ==> packet.Header.Channel == tdsChan.channelId
@@ -699,12 +719,33 @@ package tds
 //@   ensures [body] err == nil ==> (forall j int :: 8 <= j && j < packet.Header.Length ==> tdsChan.tdsConn.conn.$wire[old(tdsChan.tdsConn.conn.$wlen) + j] == packet.Data[j - 8])
 //@   ensures [wire-grows] old(tdsChan.tdsConn.conn.$wlen) <= tdsChan.tdsConn.conn.$wlen
 //@   ensures [prefix-kept] forall k int :: 0 <= k && k < old(tdsChan.tdsConn.conn.$wlen) ==> tdsChan.tdsConn.conn.$wire[k] == old(tdsChan.tdsConn.conn.$wire[k])
-//@ func (*Channel).sendPackets returns (err)
+//@ pred txnext(q *PacketQueue, k int) { k < len(q.queue) ? q.queue[k].$pos : (len(q.queue) == 0 ? q.$base : q.queue[len(q.queue) - 1].$pos + len(q.queue[len(q.queue) - 1].Data)) }
+//@ func (*Channel).sendPackets returns (err) per-return
 //@   requires [ctx] nonnil(ctx)
-//@   modifies all Packet.Header, all Packet.Data, tdsChan.curPacketNr, tdsChan.eomPending, tdsChan.$open, tdsChan.tdsConn.conn.$wire, tdsChan.tdsConn.conn.$wlen, tdsChan.queueTx.queue, tdsChan.queueTx.indexPacket, tdsChan.queueTx.indexData
+//@   requires [sent-pos] tdsChan.$sent == tdsChan.queueTx.$base
+//@   # assumption (not provable from the interface contracts of the writers): the packets in the queue
+//@   # were created with the packet size in force, i.e. the packet size did not change while they were queued
+//@   requires [size-tie] forall j int :: 0 <= j && j < len(tdsChan.queueTx.queue) ==> len(tdsChan.queueTx.queue[j].Data) == tdsChan.tdsConn.packetSize - 8
+//@   modifies all Packet.Header, all Packet.Data, tdsChan.curPacketNr, tdsChan.eomPending, tdsChan.$open, tdsChan.$sent, tdsChan.tdsConn.conn.$wire, tdsChan.tdsConn.conn.$wlen, tdsChan.queueTx.queue, tdsChan.queueTx.indexPacket, tdsChan.queueTx.indexData, tdsChan.queueTx.$base
 //@   ensures [eom-last] !onlyFull && err == nil ==> !tdsChan.$open
+//@   ensures [sent-pos] err == nil ==> tdsChan.$sent == tdsChan.queueTx.$base
+//@   ensures [all-sent] !onlyFull && err == nil ==> tdsChan.$sent == tdsChan.queueTx.$w
+//@   ensures [sent-grows] old(tdsChan.$sent) <= tdsChan.$sent
 //@   loop 0:
 //@     invariant [coupled] tdsChan.eomPending == tdsChan.$open
+//@     invariant [nr] 0 <= tdsChan.curPacketNr && tdsChan.curPacketNr < 256
+//@     invariant [idx] 0 <= rangeindex + 1 && rangeindex + 1 <= len(tdsChan.queueTx.queue)
+//@     invariant [t1] forall j int :: pqt1at(tdsChan.queueTx, j) by@keep head(pqt1at(tdsChan.queueTx, j))
+//@     invariant [cursor] pqtcursor(tdsChan.queueTx)
+//@     invariant [sized] forall j int :: rangeindex + 1 <= j && j < len(tdsChan.queueTx.queue) ==> len(tdsChan.queueTx.queue[j].Data) == tdsChan.tdsConn.packetSize - 8 by@keep head(rangeindex + 1 <= j && j < len(tdsChan.queueTx.queue) ==> len(tdsChan.queueTx.queue[j].Data) == tdsChan.tdsConn.packetSize - 8) && head(pqtcursor(tdsChan.queueTx)) && head(pqt1at(tdsChan.queueTx, j))
+//@     invariant [cur-sized] rangeindex + 1 < len(tdsChan.queueTx.queue) ==> len(tdsChan.queueTx.queue[rangeindex + 1].Data) == tdsChan.tdsConn.packetSize - 8 by@entry old(0 < len(tdsChan.queueTx.queue) ==> len(tdsChan.queueTx.queue[0].Data) == tdsChan.tdsConn.packetSize - 8) by@keep head(rangeindex + 2 < len(tdsChan.queueTx.queue) ==> len(tdsChan.queueTx.queue[rangeindex + 2].Data) == tdsChan.tdsConn.packetSize - 8) && head(pqtcursor(tdsChan.queueTx))
+//@     invariant [last-exact] rangeindex + 1 == len(tdsChan.queueTx.queue) && len(tdsChan.queueTx.queue) > 0 ==> len(tdsChan.queueTx.queue[len(tdsChan.queueTx.queue) - 1].Data) == tdsChan.queueTx.indexData by@keep head(pqtcursor(tdsChan.queueTx)) && head(pqt1at(tdsChan.queueTx, rangeindex + 1))
+//@     invariant [chain] forall j int :: pqtchain(tdsChan.queueTx, j) by@keep head(pqtchain(tdsChan.queueTx, j)) && head(pqt1at(tdsChan.queueTx, j)) && head(pqt1at(tdsChan.queueTx, j + 1)) && head(pqtcursor(tdsChan.queueTx))
+//@     invariant [tdist] forall j int, k int :: pqtdist(tdsChan.queueTx, j, k) by@keep head(pqtdist(tdsChan.queueTx, j, k)) && head(pqt1at(tdsChan.queueTx, j)) && head(pqt1at(tdsChan.queueTx, k))
+//@     invariant [tw] pqtw(tdsChan.queueTx) && pqtbase(tdsChan.queueTx)
+//@     invariant [tc] forall j int, i int :: pqtc(tdsChan.queueTx, j, i) by@keep head(pqtc(tdsChan.queueTx, j, i)) && head(pqt1at(tdsChan.queueTx, j)) && head(pqtcursor(tdsChan.queueTx))
+//@     invariant [cur] forall i int :: pqtc(tdsChan.queueTx, rangeindex + 1, i) by@entry old(pqtc(tdsChan.queueTx, 0, i)) by@keep head(pqtc(tdsChan.queueTx, rangeindex + 2, i)) && head(pqt1at(tdsChan.queueTx, rangeindex + 1)) && head(pqt1at(tdsChan.queueTx, rangeindex + 2)) && head(pqtdist(tdsChan.queueTx, rangeindex + 1, rangeindex + 2)) && head(pqtcursor(tdsChan.queueTx))
+//@     invariant [sent] tdsChan.$sent == txnext(tdsChan.queueTx, rangeindex + 1) && old(tdsChan.$sent) <= tdsChan.$sent by@keep head(pqtchain(tdsChan.queueTx, rangeindex + 1)) && head(pqt1at(tdsChan.queueTx, rangeindex + 1)) && head(pqt1at(tdsChan.queueTx, rangeindex + 2)) && head(pqtcursor(tdsChan.queueTx))
 //@     invariant [wire-prefix] old(tdsChan.tdsConn.conn.$wlen) <= tdsChan.tdsConn.conn.$wlen && (forall k int :: 0 <= k && k < old(tdsChan.tdsConn.conn.$wlen) ==> tdsChan.tdsConn.conn.$wire[k] == old(tdsChan.tdsConn.conn.$wire[k]))
 //@   ensures [wire-grows] old(tdsChan.tdsConn.conn.$wlen) <= tdsChan.tdsConn.conn.$wlen
 //@   ensures [prefix-kept] forall k int :: 0 <= k && k < old(tdsChan.tdsConn.conn.$wlen) ==> tdsChan.tdsConn.conn.$wire[k] == old(tdsChan.tdsConn.conn.$wire[k])
@@ -736,7 +777,14 @@ package tds
 //@   ensures [chwf] chwf(ch)
 //@ func (EnvChangePackageField).WriteTo like FieldFmt.WriteTo
 //@ # Channel entry points of the sender (C01)
+//@ func (*Channel).Reset
+//@   modifies tdsChan.CurrentHeaderType, tdsChan.lastPkgTx, tdsChan.$sent, tdsChan.queueTx.queue, tdsChan.queueTx.indexPacket, tdsChan.queueTx.indexData, tdsChan.queueTx.recvEOM, tdsChan.queueTx.$r, tdsChan.queueTx.$base
+//@   ghost-update at exit: tdsChan.$sent := old(tdsChan.closed) ? tdsChan.$sent : tdsChan.queueTx.$w
+//@   ensures [sent-pos] !old(tdsChan.closed) ==> tdsChan.$sent == tdsChan.queueTx.$base
+//@   ensures [tx-empty] !old(tdsChan.closed) ==> len(tdsChan.queueTx.queue) == 0
 //@ func (*Channel).QueuePackage returns (err)
+//@   requires [sent-pos] tdsChan.$sent == tdsChan.queueTx.$base
+//@   ensures [sent-pos] err == nil ==> tdsChan.$sent == tdsChan.queueTx.$base
 //@   ensures [closed-reported] old(tdsChan.closed) ==> err != nil && errIs(err, ErrChannelClosed) && tdsChan.queueTx.$w == old(tdsChan.queueTx.$w) && tdsChan.tdsConn.conn.$wlen == old(tdsChan.tdsConn.conn.$wlen)
 //@   requires [ctx] nonnil(ctx)
 //@   requires [pkg] nonnil(pkg)
@@ -744,12 +792,16 @@ package tds
 //@   ensures [wire-grows] old(tdsChan.tdsConn.conn.$wlen) <= tdsChan.tdsConn.conn.$wlen
 //@   ensures [wire-prefix-kept] forall k int :: 0 <= k && k < old(tdsChan.tdsConn.conn.$wlen) ==> tdsChan.tdsConn.conn.$wire[k] == old(tdsChan.tdsConn.conn.$wire[k])
 //@ func (*Channel).SendRemainingPackets returns (err)
+//@   requires [sent-pos] tdsChan.$sent == tdsChan.queueTx.$base
+//@   ensures [sent-pos] !old(tdsChan.closed) ==> tdsChan.$sent == tdsChan.queueTx.$base
+//@   ensures [nothing-left-behind] err == nil ==> len(tdsChan.queueTx.queue) == 0
 //@   ensures [closed-reported] old(tdsChan.closed) ==> err != nil && errIs(err, ErrChannelClosed) && tdsChan.tdsConn.conn.$wlen == old(tdsChan.tdsConn.conn.$wlen)
 //@   requires [ctx] nonnil(ctx)
 //@   ensures [eom-last] err == nil ==> !tdsChan.$open
 //@   ensures [wire-grows] old(tdsChan.tdsConn.conn.$wlen) <= tdsChan.tdsConn.conn.$wlen
 //@   ensures [wire-prefix-kept] forall k int :: 0 <= k && k < old(tdsChan.tdsConn.conn.$wlen) ==> tdsChan.tdsConn.conn.$wire[k] == old(tdsChan.tdsConn.conn.$wire[k])
 //@ func (*Channel).SendPackage returns (err)
+//@   requires [sent-pos] tdsChan.$sent == tdsChan.queueTx.$base
 //@   ensures [closed-reported] old(tdsChan.closed) ==> err != nil && errIs(err, ErrChannelClosed) && tdsChan.tdsConn.conn.$wlen == old(tdsChan.tdsConn.conn.$wlen)
 //@   requires [ctx] nonnil(ctx)
 //@   requires [pkg] nonnil(pkg)
@@ -866,6 +918,7 @@ package tds
 //@   ensures [rejects-other-ack] is(pkg, *LoginAckPackage) && as(pkg, *LoginAckPackage).Status != TDS_LOG_SUCCEED ==> err != nil
 //@ func (*Channel).Login returns (err)
 //@   requires [ctx] nonnil(ctx)
+//@   requires [sent-pos] tdsChan.$sent == tdsChan.queueTx.$base
 //@   requires [dsn] config != nil ==> config.DSN != nil
 //@   requires [script] 0 <= tdsChan.$rxn
 //@   ensures [plain-accept] err == nil && old(plainflow(config.Encrypt)) ==> tdsChan.$rxn == old(tdsChan.$rxn) + 2 && tdsChan.$rxtag[old(tdsChan.$rxn)] == typetag(*LoginAckPackage) && tdsChan.$rxst[old(tdsChan.$rxn)] == TDS_LOG_SUCCEED && tdsChan.$rxtag[old(tdsChan.$rxn) + 1] == typetag(*DonePackage)
